@@ -90,14 +90,14 @@ def authorizeQueryBoot (userCount : Nat) (u : Option User) (db : String) (q : Li
 
 /-- the decision on a wrapped route with the query gate in a world without users (authenticate
 hands over nil because no administrator exists); everything else is `decide`. -/
-def decideBoot (w : World) (c : Cfg) (method : String) (path : List Char) (req : Req) (db : String) (q : List Stmt) : Decision :=
+def decideBoot (w : World) (c : Cfg) (method : String) (path : List Char) (req : Req) (db : String) (dbExists : Bool) (q : List Stmt) : Decision :=
   match dispatch c method path with
   | .route r =>
     if method ≠ "OPTIONS" && r.sig = "user" && w.authEnabled && w.users.isEmpty && (routeGates r).contains "query" then
       if authorizeQueryBoot w.users.length none db q then .pass
       else if azHandlers.contains r.handler then .dAz else .d403
-    else decide w c method path req db false q
-  | _ => decide w c method path req db false q
+    else decide w c method path req db dbExists q
+  | _ => decide w c method path req db dbExists q
 
 /-! ## bearer tokens in detail -/
 
